@@ -3,6 +3,7 @@ package rules
 import (
 	"go/token"
 	"go/types"
+	"strings"
 
 	"golang.org/x/tools/go/ssa"
 
@@ -568,6 +569,136 @@ func c06(c *core.Ctx) {
 			_, isCell := site.Set.(*ssa.Alloc)
 			c.Check("checkSignersWeight:seen-set-is-local", "value-flow", isMk || isCell, site.At.Pos(), "the seen-set is created per call")
 		}
+	})
+
+	c.Clause("C06.5", "the registered signer list of an account is its own: SetSingers stores a freshly allocated copy (an append into the old backing array would write through to the copies of the account kept by other blocks' state views, which share the slice); and every signing hash encodes a covered field in the same form as the transaction identity does")
+	c.Run("signer-list-and-hash-forms", func() {
+		fn := c.Fn("chain/account.Account.SetSingers")
+		sig := c.FieldVar("chain/types.AccountData", "Signers")
+		n := 0
+		for _, b := range fn.Blocks {
+			for _, in := range b.Instrs {
+				st, ok := in.(*ssa.Store)
+				if !ok || core.FieldOf(st.Addr) != sig {
+					continue
+				}
+				n++
+				// the stored slice is fresh: a make, or an append whose base is (derived from) a make stored into the field before
+				fresh := false
+				val := st.Val
+				for {
+					if ct, isCT := val.(*ssa.ChangeType); isCT {
+						val = ct.X
+						continue
+					}
+					break
+				}
+				switch v := val.(type) {
+				case *ssa.MakeSlice:
+					fresh = true
+				case *ssa.Slice:
+					// make(T, 0) with constant sizes is a slice of a new array
+					if al, isAl := v.X.(*ssa.Alloc); isAl && al.Heap {
+						fresh = true
+					}
+				case *ssa.Call:
+					if bi, isB := v.Call.Value.(*ssa.Builtin); isB && bi.Name() == "append" {
+						base := v.Call.Args[0]
+						for x := range core.Slice(base) {
+							if _, isMk := x.(*ssa.MakeSlice); isMk {
+								fresh = true
+							}
+						}
+						if core.SliceHasField(core.Slice(base), sig) {
+							// appending to the field's current value: only fine when a fresh make was stored into the field on every path before
+							fresh = freshStoreDominates(fn, sig, st)
+						}
+					}
+				}
+				c.Check("SetSingers:stores-a-fresh-list#"+string(rune('a'+n-1)), "reinitialised-before-copy", fresh, st.Pos(), "the signer list stored into the account is freshly allocated, never an append into the previous backing array")
+			}
+		}
+		c.Floor("SetSingers/stores", n, 1)
+
+		// hash forms: for each txdata field, the way its value enters Transaction.Hash and each signing hash (raw field, or an accessor that
+		// returns exactly the field) must agree; an accessor that substitutes a default makes two distinct identities sign alike
+		data := c.Struct("chain/types.txdata")
+		form := func(fnSpec string) map[string]string {
+			f := c.Fn(fnSpec)
+			out := map[string]string{}
+			for _, ci := range core.CallsIn(f, c.FuncObj("chain/types.rlpHash")) {
+				for v := range core.Slice(ci.Common().Args[0]) {
+					switch x := v.(type) {
+					case *ssa.FieldAddr, *ssa.Field:
+						if fv := core.FieldOf(x.(ssa.Value)); fv != nil {
+							for i := 0; i < data.NumFields(); i++ {
+								if data.Field(i) == fv && out[fv.Name()] == "" {
+									out[fv.Name()] = "raw"
+								}
+							}
+						}
+					case *ssa.Call:
+						callee := core.StaticFn(x)
+						if callee == nil || core.RelPkg(callee) != "chain/types" || callee.Blocks == nil {
+							continue
+						}
+						// which field does the accessor return, and is it faithful to that field? An accessor may copy (new(big.Int).Set(f), *f) but it
+						// must not draw on any other field of the transaction (a default taken from From makes two identities sign alike)
+						fields := map[string]bool{}
+						var collect func(fn *ssa.Function, depth int)
+						collect = func(fn *ssa.Function, depth int) {
+							for _, r := range core.Returns(fn) {
+								for _, res := range r.Results {
+									for y := range core.Slice(core.ResolveSpill(res)) {
+										if fv := core.FieldOf(y); fv != nil {
+											for i := 0; i < data.NumFields(); i++ {
+												if data.Field(i) == fv {
+													fields[fv.Name()] = true
+												}
+											}
+										}
+										if call, isCall := y.(*ssa.Call); isCall && depth < 2 {
+											// only other accessors of the transaction (methods without parameters) are followed
+											if inner := core.StaticFn(call); inner != nil && core.RelPkg(inner) == "chain/types" && inner.Blocks != nil && inner != fn &&
+												inner.Signature.Recv() != nil && inner.Signature.Params().Len() == 0 && namedPtr(inner.Signature.Recv().Type()) == "Transaction" {
+												collect(inner, depth+1)
+											}
+										}
+									}
+								}
+							}
+						}
+						collect(callee, 0)
+						plain := len(fields) == 1
+						for name := range fields {
+							if plain {
+								if out[name] == "" || out[name] == "raw" {
+									out[name] = "raw"
+								}
+							} else {
+								out[name] = "via " + callee.Name() + " (draws on " + strings.Join(core.SortedKeys(fields), "+") + ")"
+							}
+						}
+					}
+				}
+			}
+			return out
+		}
+		id := form("chain/types.Transaction.Hash")
+		cmp := 0
+		for _, spec := range []string{"chain/types.DefaultSigner.Hash", "chain/types.ReimbursementTxSigner.Hash", "chain/types.GasPayerSigner.Hash"} {
+			sf := form(spec)
+			for name, how := range sf {
+				want, both := id[name]
+				if !both {
+					continue
+				}
+				cmp++
+				short := spec[strings.LastIndex(spec, "/")+1:]
+				c.Check("hash-form/"+short+"#"+name, "sibling-agreement", how == want, token.NoPos, "%s encodes %s %s; the transaction identity encodes it %s", short, name, how, want)
+			}
+		}
+		c.Floor("hash-form/compared-fields", cmp, 20)
 	})
 
 	c.NotDecidedf("cryptographic soundness of ECDSA recovery and of keccak/RLP; that one signature has one encoding (the canonical low-s form is decided under C04.5 for every Ecrecover consumer; D6, repaired)")
